@@ -5,7 +5,8 @@
    goroutines, any number of calls each) and ALL schedules; c is the configuration reached by the
    schedule; hist c lists the finished calls in completion order with their invocation and
    response times (time = number of atomic operations executed so far). *)
-From Coq Require Import ZArith List Bool Sorted Permutation.
+From Coq Require Import ZArith List Bool Sorted Permutation Reals.
+From Flocq Require Import Core.Core IEEE754.BinarySingleNaN.
 From Verif Require Import Base.F64 Base.Conc Model.CounterGauge Proofs.C01_proofs.
 Import ListNotations.
 Open Scope Z_scope.
@@ -35,14 +36,35 @@ Proof. exact C01_proofs.gauge_lin_check_complete_lemma. Qed.
 (* G3 (order-dependent form). At quiescence every call of the programs has completed exactly once, the
    value is the sequential result in completion order, and without Set it is the float sum of the
    amounts in completion order. *)
-Theorem gauge_quiescent_exact_partial : forall (progs : list (list gauge_op)) (sched : list Z),
+Theorem gauge_quiescent_completion_order : forall (progs : list (list gauge_op)) (sched : list Z),
   let c := run_sched gauge_machine (init_config gauge_machine gauge_init progs) sched in
   all_done gauge_machine c = true ->
   Permutation (map (@c_op gauge_machine) (hist c)) (concat progs) /\
   sh c = fst (spec_run gauge_spec_step gauge_init (map (@c_op gauge_machine) (hist c))) /\
   (Forall no_set (concat progs) ->
    sh c = fold_left fadd (flat_map ga (map (@c_op gauge_machine) (hist c))) pzero).
-Proof. exact C01_proofs.gauge_quiescent_exact_partial_lemma. Qed.
+Proof. exact C01_proofs.gauge_quiescent_completion_order_lemma. Qed.
+
+(* G3. Without Set and with amounts on a common grid (`grid_ok`, the executable exactness guard of
+   Model/CounterGauge.v: non-negative multiples of 2^k with total below 2^(k+53)), the quiescent value is
+   the float sum of the program's amounts in PROGRAM order, whatever the schedule was. *)
+Theorem gauge_quiescent_exact : forall (progs : list (list gauge_op)) (sched : list Z),
+  let c := run_sched gauge_machine (init_config gauge_machine gauge_init progs) sched in
+  all_done gauge_machine c = true -> Forall no_set (concat progs) ->
+  grid_ok (flat_map ga (concat progs)) = true ->
+  sh c = fold_left fadd (flat_map ga (concat progs)) pzero.
+Proof. exact C01_proofs.gauge_quiescent_exact_lemma. Qed.
+
+(* Float facts behind G3 / C5: on a grid the float sum is independent of the order, and it is the exact
+   real sum of the amounts (no rounding), or +Inf once the real sum reaches 2^1024. *)
+Theorem grid_sum_order_independent : forall l l' : list f64, grid_ok l = true -> Permutation l l' ->
+  fold_left fadd l' pzero = fold_left fadd l pzero.
+Proof. exact C01_proofs.grid_sum_order_independent_lemma. Qed.
+
+Theorem grid_sum_exact : forall l : list f64, grid_ok l = true ->
+  let r := fold_left fadd l pzero in
+  (r = pinf /\ (bpow radix2 1024 <= rsum l)%R) \/ (is_fin r = true /\ B2R r = rsum l).
+Proof. exact C01_proofs.grid_sum_exact_lemma. Qed.
 
 (* ---------------- counter ---------------- *)
 
@@ -99,6 +121,26 @@ Theorem counter_quiescent_exact : forall (progs : list (list counter_op)) (sched
   fadd (valBits (sh c)) (of_Z (valInt (sh c))) =
     fadd (sum_amounts (cas_amounts (hist c))) (of_Z (zsum (map ia (concat progs)) mod two64)).
 Proof. exact C01_proofs.counter_quiescent_exact_lemma. Qed.
+
+(* C5, schedule-independent form: when the float-path amounts lie on a common grid, both words and the
+   exposed value are functions of the programs alone. *)
+Theorem counter_quiescent_grid : forall (progs : list (list counter_op)) (sched : list Z),
+  let c := run_sched counter_machine (init_config counter_machine counter_init progs) sched in
+  all_done counter_machine c = true -> grid_ok (flat_map ca (concat progs)) = true ->
+  valBits (sh c) = sum_amounts (flat_map ca (concat progs)) /\
+  valInt (sh c) = zsum (map ia (concat progs)) mod two64 /\
+  fadd (valBits (sh c)) (of_Z (valInt (sh c))) =
+    fadd (sum_amounts (flat_map ca (concat progs))) (of_Z (zsum (map ia (concat progs)) mod two64)).
+Proof. exact C01_proofs.counter_quiescent_grid_lemma. Qed.
+
+(* ... and that value is the exact real total (float part + integer part) rounded ONCE to nearest even:
+   exact whenever the total is representable, within one rounding otherwise (integer part below 2^53). *)
+Theorem counter_value_rounded : forall (amounts : list f64) (i : Z),
+  grid_ok amounts = true -> 0 <= i < 2 ^ 53 ->
+  let v := fadd (sum_amounts amounts) (of_Z i) in
+  is_fin v = true ->
+  B2R v = round radix2 (SpecFloat.fexp 53 1024) (round_mode mode_NE) (rsum amounts + IZR i).
+Proof. exact C01_proofs.counter_value_rounded_lemma. Qed.
 
 (* ---------------- examples ---------------- *)
 
